@@ -3,7 +3,9 @@
 // (a) gater_test.go: the real connectionGater (built through the verif hook exactly like newPeer builds it) driven by
 //     generated operation sequences against the ban model below (tolerance windows, wall time is real);
 // (b) e2e_test.go: started p2p.Connections on distinct loopback IPs, misbehaving and legal traffic, then the ban
-//     consequences (score, disconnect, dials in both directions, expiry).
+//     consequences (score, disconnect, dials in both directions, expiry);
+// (c) sync_test.go: generated valid and invalid sync requests against the real consensus/sync handlers of a harness
+//     consensus node (an invalid request gets the sender banned, a valid one never changes its score).
 package c18
 
 import (
